@@ -156,7 +156,7 @@ def _form(case):
   return case['form'] if 'form' in case else (1 if case.get('kw') else 0)
 
 
-def _view(case, info=None):
+def _view(case, info=None, flaky=None):
   """The view under test.  `info` (a dict) receives the dataset, its source arrays and the
   hparams objects handed in together with copies taken before the call."""
   import copy
@@ -164,7 +164,7 @@ def _view(case, info=None):
   from fedjax.core import client_datasets as cd
   n = case['pslice'][0] if case.get('pslice') else case['n']
   ex = _columns(n, _lay(case))
-  ds = fedjax.ClientDataset(ex, fedjax.BatchPreprocessor([lambda e: {**e, 'y': e['x'] + 1}]))
+  ds = fedjax.ClientDataset(ex, fedjax.BatchPreprocessor([lambda e: {**e, 'y': e['x'] + 1}] + ([flaky] if flaky else [])))
   if case.get('pslice'):
     _, a, b, c = case['pslice']
     ds = ds[slice(a, b, c)]
@@ -423,6 +423,26 @@ def _oracle_sweep(case, obs):
   return out
 
 
+def _abandoned_ok(case, b1):
+  """Error recovery / abandoned passes (round 6): a FRESH view whose first use is abandoned (peek, break after
+  1 / k batches, generator close, an exception of the preprocessor caught by the caller, two abandoned passes,
+  abandon then two interleaved iterators) must afterwards reproduce the undisturbed sequential pass b1."""
+  from harness import c03
+  ok = True
+  for j in range(2):
+    how = c03.ABANDON[(case.get('deliv', 0) + 4 * j + case['bs']) % len(c03.ABANDON)]
+    flaky = c03._Flaky(1 if how == 'raise-on-call-1' else 2) if how.startswith('raise') else None
+    view = _view(case, None, flaky)
+    c03._abandon(view, how, max(min(len(b1), K) // 2, 1))
+    if flaky:
+      flaky.j = -1            # disarmed: it raised (or the pass was too short to reach its j-th call)
+    if how == 'abandon-then-interleave':
+      ok &= _interleaved(view, case, b1)
+    got, fok = _take(view, case)
+    ok &= got == b1 and fok
+  return bool(ok)
+
+
 def run(case):
   if 'sweep' in case:
     return _run_sweep(case)
@@ -486,7 +506,8 @@ def run(case):
       set(a) == set(b) and all(_eqb(a[k], b[k]) for k in a) for a, b in zip(raw, raw_snap))
   return {'batches': b1, 'again': b1 == b2 == b3, 'features_ok': bool(ok1 and ok2 and ok3), 'shuffles': rec.shuffles,
           'interleaved': bool(inter), 'interleaved_views': bool(inter_views), 'pieces': bool(pieces),
-          'hidden': bool(hidden), 'mutated': bool(mutated), 'container': bool(container), 'kept': bool(kept)}
+          'hidden': bool(hidden), 'mutated': bool(mutated), 'container': bool(container), 'kept': bool(kept),
+          'abandoned': _abandoned_ok(case, b1)}
 
 
 def hang_key(case):
@@ -572,7 +593,9 @@ def oracle(case, obs):
       ('pieces', 'pieces', 'a pass consumed in pieces (islice, a bare iter() and another view in between) differs from the sequential pass'),
       ('hidden', 'hidden-state', 'after other views with other hyper-parameters were built from the same dataset / hparams object and iterated, the first view no longer reproduces its batches'),
       ('container', 'container', 'the raw_examples mapping (keys / array identities) or an hparams object handed in was changed'),
-      ('kept', 'kept-results', 'batches kept by the caller changed after later iterations')):
+      ('kept', 'kept-results', 'batches kept by the caller changed after later iterations'),
+      ('abandoned', 'abandoned-pass', 'after a first use that was abandoned early (peek / break / close / a caught exception of the '
+       'preprocessor / twice / followed by interleaving) a complete pass over the same view differs from the undisturbed pass')):
     if not obs.get(flag, True):
       out.append((key, what))
   if obs.get('mutated', False):
